@@ -188,3 +188,28 @@ def gen_program_guided(rng: random.Random, state, n: int, arrays=(0, 1, 2), p_fa
         if prog[i] is None:
             prog[i] = _rand_instr(rng, pool, arrays, i, n, waits)
     return prog
+
+
+def gen_return_twice(rng: random.Random) -> list:
+    """array; stores; ret_arr; then some entries undefined (undef) or the array re-declared with the same length; ret_arr
+    again: what the host sees after the second return must be the second content."""
+    a = rng.choice([0, 1, 2])
+    ln = rng.choice([1, 2, 3, 5])
+    prog = [["set", [["R", 0], ln]], ["array", [["R", 0], a]]]
+    for i in range(ln):
+        if rng.random() < 0.8:
+            prog += [["set", [["R", 1], i]], ["set", [["R", 2], rng.choice(SMALL)]], ["store", [["R", 2], [a, ["R", 1]]]]]
+    prog.append(["ret_arr", [a]])
+    how = rng.choice(["undef", "redeclare", "overwrite"])
+    if how == "undef":
+        for i in range(ln):
+            if rng.random() < 0.6:
+                prog += [["set", [["R", 1], i]], ["undef", [[a, ["R", 1]]]]]
+    elif how == "redeclare":
+        prog += [["set", [["R", 0], ln]], ["array", [["R", 0], a]]]
+        if rng.random() < 0.5:
+            prog += [["set", [["R", 1], 0]], ["set", [["R", 2], 9]], ["store", [["R", 2], [a, ["R", 1]]]]]
+    else:
+        prog += [["set", [["R", 1], rng.randrange(ln)]], ["set", [["R", 2], 77]], ["store", [["R", 2], [a, ["R", 1]]]]]
+    prog.append(["ret_arr", [a]])
+    return prog
